@@ -24,6 +24,11 @@ Expect(e) ==
       [] e.op = "ValidateHOTP" -> ValHOTPExpect(Hm, e.secret, e.code, e.ctr, P(e))
       [] e.op = "ValidateTOTP" -> ValTOTPExpect(Hm, e.secret, e.code, e.sec, e.step, P(e))
       [] e.op = "DecodeSecret" -> DecodeExpect(e.secret)
+      \* the two functions that exist only in the js/wasm build (the engine of the JavaScript binding); e.secret is
+      \* the canonical base32 of the raw key they are given; e.x.dcls = the code length if it is 1..10, else 0
+      [] e.op = "DeriveWasm" -> IF e.x.dcls = 0 THEN AnyX ELSE GenAtCounter(Hm, e.secret, e.ctr, e.alg, e.x.dcls)
+      [] e.op = "ValidateWasm" -> IF e.x.dcls = 0 THEN AnyX
+                                  ELSE ValidateAt(Hm, e.secret, e.code, e.ctr, e.alg, e.x.dcls, W!Zero, TRUE)
       [] e.op = "GenerateOCRA" -> GenOCRAExpect(Hm, e.secret, e.x.su, e.x.in)
       [] e.op = "ValidateOCRA" -> ValOCRAExpect(Hm, e.secret, e.code, e.x.su, e.x.in)
       [] e.op = "OCRAQuestion" ->                      \* helper + generation end to end (C17)
@@ -57,9 +62,10 @@ OwnProp(e) == CASE e.op = "GenerateHOTP" -> "C01" [] e.op = "GenerateTOTP" -> "C
                 [] e.op \in {"To8BE", "ParseDec8", "ParseDec64", "LeftPadHex", "MustHexPadLeft", "ParseHexTimestamp",
                              "ParseDecimalChallenge", "HexInputToOCRA", "OCRAQuestion"} -> "C17"
                 [] e.op = "RandomSecret" -> "C08"
+                [] e.op \in {"DeriveWasm", "ValidateWasm"} -> "C20"
                 [] OTHER -> "NONE"        \* operations no listed property owns functionally (only "returns normally", C10)
 
-IsValidate(e) == e.op \in {"ValidateHOTP", "ValidateTOTP", "ValidateOCRA"}
+IsValidate(e) == e.op \in {"ValidateHOTP", "ValidateTOTP", "ValidateOCRA", "ValidateWasm"}
 
 (* C13: the set of codes that would have been accepted by this call (for the disclosure clause) *)
 AcceptableCodes(e) ==
